@@ -209,7 +209,7 @@ def run(chk):
         return
     rng = random.Random(chk.seed)
     sig_of = make_sig_of(exe)
-    per_k = 30 if chk.tier == "quick" else 300
+    per_k = 20 if chk.tier == "quick" else 300
     scale = 1 if chk.tier == "quick" else 2
     total = corr.collections.Counter()
     dropped = {}
